@@ -176,7 +176,7 @@ impl Property for C09 {
     fn runs(&self, tier: Tier) -> u64 {
         match tier {
             Tier::Quick => 10000,
-            Tier::Thorough => 800000,
+            Tier::Thorough => 1000000,
         }
     }
 
@@ -210,6 +210,7 @@ impl Property for C09 {
                 }
             }
         }
+        let scale_case = scale_case && !very_wide(&net);
         let n = if scale_case { rng.range(40, 150) } else { rng.range(1, 8) };
         let train = gen_data(rng, &net, n);
         let v = if scale_case { rng.range(65, 200) } else { rng.range(1, 6) };
